@@ -1,1 +1,250 @@
-TABLE = {}
+"""Statement-level property checks (C03, C09-C15, C17): TLC enumerates the feature space of a specification module
+and checks its invariants; every enumerated case is rendered and executed on the real binary; the observed outcome
+per statement is compared with the specification's."""
+import json
+import multiprocessing
+import os
+import random
+
+import bl
+import common
+import stmt as st
+from common import Verdict, run_tlc, require_tlc_ok, log, ToolError
+from checks_run import tlc_dump
+
+PACK = 700
+
+
+def tlc_cases(v, cfg, module="MCStmt.tla", tag="CASE", need=()):
+    r = run_tlc(module, cfg, workers=min(8, common.NCPU), coverage=False, timeout=3000, xmx="12g")
+    if not r.ok:
+        raise ToolError("TLC on %s failed: violated=%s error=%s\n%s" % (cfg, r.violated, r.error, r.out[-1500:] if not r.violated else ""))
+    v.add_tlc(r, cfg)
+    cases = tlc_dump(r, tag)
+    log("[tlc] %s: %d distinct states, %d cases dumped, %.1fs" % (cfg, r.distinct, len(cases), r.wall))
+    return cases
+
+
+def _obs_job(job):
+    binary, packs, structured = job
+    res, runs = st.observe_pack(binary, packs, structured)
+    bad = {}
+    for name, r in runs.items():
+        if r.exit_class in ("panic", "timeout", "signal", "killed"):
+            bad[name] = (r.exit_class, r.stderr[-300:])
+    return res, bad, {k: r.exit_class for k, r in runs.items()}
+
+
+def classify_problem(r, text, structured):
+    """Which property does a mismatch speak about?"""
+    if r is None:
+        if "pure insertion" in text:
+            return "C03"
+        if "second --check" in text or "second edit" in text:
+            return "C06"
+        return "C11"
+    s = r.case["s"]
+    exp = r.case["outcome"]
+    if "reported location" in text:
+        return "C05"
+    if exp == "none":
+        return "C11"
+    if exp == "ignored":
+        return "C14"
+    if exp in ("unusable", "untouched"):
+        return "C13"
+    if exp == "hasref":
+        return "C13" if (structured and s["dir"] != "nokvp") else "C12"
+    if exp == "missing":
+        if s["dir"] == "nokvp":
+            return "C14"
+        if structured and ("token" in text or "key-value inserted" in text):
+            return "C13"
+        return "C10"
+    return "C10"
+
+
+def make_packs(cases):
+    bymode = {"structured": [], "unstructured": []}
+    for c in cases:
+        bymode[c["mode"]].append(c)
+    packs = []
+    uid = 1000
+    for mode, cs in bymode.items():
+        for i in range(0, len(cs), PACK):
+            pk = st.Pack("p_%s_%d.rs" % (mode[0], i // PACK))
+            for c in cs[i:i + PACK]:
+                uid += 1
+                pk.add(st.render_case(c, uid))
+            pk.finish()
+            packs.append((pk, mode == "structured"))
+    return packs
+
+
+def run_cases(binary, cases, v, props, label, sigextra=None, packs=None):
+    """Render, pack (per mode), execute, compare. Registers violations tagged with a property in `props`."""
+    packs_all = packs if packs is not None else make_packs(cases)
+    jobs = [(binary, [pk], structured) for pk, structured in packs_all]
+    procs = max(2, min(common.NCPU - 2, 14))
+    if len(jobs) > 2:
+        with multiprocessing.get_context("fork").Pool(procs) as pool:
+            results = pool.map(_obs_job, jobs, chunksize=1)
+    else:
+        results = [_obs_job(j) for j in jobs]
+    nprob = 0
+    for (pk, structured), (res, bad, exits) in zip(packs_all, results):
+        for name, (cls, err) in bad.items():
+            v.cov.setdefault("abnormal_terminations", []).append({"pack": pk.name, "run": name, "class": cls, "stderr": err})
+            if "C17" in props:
+                v.violation({"check": "NoPanicNoHang", "run": name, "family": label}, "breadlog %s in %s on pack %s: %s" % (cls, name, pk.name, err),
+                            {"family": label, "file": pk.text[:20000]})
+        v.cov["traces_validated_against_impl"] += 1
+        v.cov["cases_compared"] = v.cov.get("cases_compared", 0) + len(pk.items)
+        problems, per = st.judge_pack(pk, res[pk.name], structured)
+        for r in pk.items:
+            v.evaluated((label, json.dumps(r.case, sort_keys=True)))
+        for (r, text, o) in problems:
+            prop = classify_problem(r, text, structured)
+            oo = v.cov.setdefault("mismatches_by_property", {})
+            oo[prop] = oo.get(prop, 0) + 1
+            if prop not in props:
+                continue
+            nprob += 1
+            sig = {"check": "StatementOutcome", "family": label, "structured": structured}
+            if r is not None:
+                s = r.case["s"]
+                sig.update({"head": s["head"], "target": s["target"] != "none", "msg": s["msg"], "layout": s["layout"],
+                            "context": s["context"], "dir": s["dir"], "expected": r.case["outcome"],
+                            "kvs": ",".join(s["kvs"])})
+            else:
+                sig["file_level"] = text[:60]
+            if sigextra:
+                sig.update(sigextra)
+            v.violation(sig, "%s: %s%s" % (prop, text, ("  statement: %r" % r.text.strip()[:200]) if r is not None else ""),
+                        {"case": r.case if r is not None else None, "statement": r.text if r is not None else None,
+                         "structured": structured, "problem": text, "pack": pk.name})
+        if pk.items:
+            r0 = pk.items[len(pk.items) // 2]
+            v.sample({"case": r0.case, "rendered": r0.text})
+    return nprob
+
+
+def c10(tier):
+    v = Verdict("C10", tier)
+    cases = tlc_cases(v, "intended/StmtLayoutQ.cfg" if tier != "thorough" else "intended/StmtLayoutT.cfg")
+    binary = common.build_breadlog()
+    n = run_cases(binary, cases, v, {"C10"}, "layout")
+    v.cov["rule"] = ("every feature record TLC enumerates for the configuration (head x target x key-values x message class x "
+                     "trailing arguments x inter-token layout x context before the statement x mode), rendered and packed "
+                     "%d statements per file; distinct = feature record" % PACK)
+    v.cov["exhaustive"] = True
+    return v.finish()
+
+
+def c11(tier):
+    v = Verdict("C11", tier)
+    cases = tlc_cases(v, "intended/StmtDecoy.cfg")
+    binary = common.build_breadlog()
+    packs = make_packs(cases)
+    # a comment on the last line of a file without a trailing newline, after real statements
+    uid = 500000
+    for mode in ("structured", "unstructured"):
+        for head in ("linecomment", "doccomment", "blockcomment"):
+            for nreal in (0, 2):
+                pk = st.Pack("tail_%s_%s_%d.rs" % (mode[0], head, nreal))
+                base = {"target": "none", "kvs": [], "msg": "plain", "dir": "none", "trailing": "none", "layout": "space",
+                        "context": "indent"}
+                for j in range(nreal):
+                    uid += 1
+                    pk.add(st.render_case({"s": dict(base, head="bare"), "mode": mode, "outcome": "missing",
+                                           "sep": ";" if mode == "structured" else "msg"}, uid))
+                uid += 1
+                tail = st.render_case({"s": dict(base, head=head), "mode": mode, "outcome": "none", "sep": "msg"}, uid)
+                pk.finish(tail=tail)
+                packs.append((pk, mode == "structured"))
+    run_cases(binary, None, v, {"C11"}, "decoy", packs=packs)
+    v.cov["rule"] = ("decoys (comments of three kinds, unconfigured / prefix / suffix / other-module names, no literal, no "
+                     "arguments, macro text inside a string literal) enumerated by TLC together with real statements and packed in "
+                     "enumeration order, plus files ending in a commented-out statement without trailing newline; distinct = record")
+    v.cov["exhaustive"] = True
+    return v.finish()
+
+
+SYM = {"sp": " ", "d": "\u0663", "R": "R", "x": "x"}
+
+
+def c12(tier):
+    v = Verdict("C12", tier)
+    toks = []
+    for cfg in (("intended/RefTokenT.cfg" if tier == "thorough" else "intended/RefTokenQ.cfg"), "intended/RefTokenB.cfg"):
+        toks += tlc_cases(v, cfg, module="MCRefToken.tla", tag="TOK")
+    cases = []
+    base = {"head": "bare", "target": "none", "kvs": [], "msg": "custom", "dir": "none", "trailing": "none",
+            "layout": "space", "context": "indent"}
+    for t in toks:
+        text = "".join(SYM.get(c, c) for c in t["w"])
+        cases.append({"s": base, "mode": "unstructured", "msgtext": text, "outcome": "hasref" if t["valid"] else "missing",
+                      "place": "message_start", "sep": "msg", "w": t["w"]})
+    # ref-like text elsewhere: later in the message, in a format argument, in a key-value string
+    cases += tlc_cases(v, "intended/StmtRefLike.cfg")
+    binary = common.build_breadlog()
+    run_cases(binary, cases, v, {"C12"}, "reftoken")
+    # tokens with 10-digit numbers: written by the tool itself and read back
+    import runlevel as rl
+    batch = rl.Batch()
+    for structured in (False,):
+        sc = rl.Scenario("ten-digit-ids", {"f1.rs": [rl.S(11), rl.S(12, ref=4294967280)], "f2.rs": [rl.S(21)]},
+                         lock=4294967286 - (4294967295 - 9), base=4294967295 - 9, structured=structured)
+        rl.planned_runs(binary, sc, [[("edit", ""), ("check", ""), ("edit", "")]], batch, v)
+    for prop, name, meta, local, detail in batch.judge(v, set()):
+        if prop in ("C06", "C01", "C03"):
+            v.violation({"check": name, "family": "ten-digit-ids"}, "C12: a 10-digit token written by Breadlog is not read back: %s %s" % (name, detail[:200]),
+                        {"scenario": meta.get("scenario_desc")})
+    v.cov["rule"] = ("every string TLC reaches in RefToken (all strings of <= N symbols over a 13-symbol alphabet after each proper "
+                     "prefix of '[ref: ', and numbers around 2^32 and the digit-count limits extended by <= 2 symbols) placed at the start "
+                     "of a message literal; ref-like text in other places; 10-digit tokens written by the tool and read back")
+    v.cov["exhaustive"] = True
+    return v.finish()
+
+
+def c13(tier):
+    v = Verdict("C13", tier)
+    cases = tlc_cases(v, "intended/StmtKv.cfg" if tier != "thorough" else "intended/StmtKvT.cfg")
+    r = run_tlc("MCStmt.tla", "asfound/StmtInsertPoint.cfg", workers=4, coverage=False)
+    if r.violated not in ("RoundTrip", "StillAccepted"):
+        raise ToolError("as-found insertion point not refuted by TLC: %s" % r.violated)
+    v.cov.setdefault("expected_counterexamples", []).append({"cfg": "asfound/StmtInsertPoint.cfg", "violated": r.violated})
+    binary = common.build_breadlog()
+    run_cases(binary, cases, v, {"C13"}, "kv")
+    v.cov["rule"] = ("every key-value sequence up to the bound over the shape alphabet (values, shorthand, capture modifiers, strings "
+                     "with ; and , and every form of an existing `ref` key) x target x message class x directive x both modes")
+    v.cov["exhaustive"] = True
+    return v.finish()
+
+
+def c14(tier):
+    v = Verdict("C14", tier)
+    cases = tlc_cases(v, "intended/DirectivesT.cfg" if tier == "thorough" else "intended/DirectivesQ.cfg",
+                      module="Directives.tla", tag="DIR")
+    binary = common.build_breadlog()
+    packs = []
+    uid = 2000
+    for mode in ("structured", "unstructured"):
+        cs = [c for c in cases if c["mode"] == mode]
+        for i in range(0, len(cs), 250):
+            pk = st.Pack("d_%s_%d.rs" % (mode[0], i // 250))
+            for c in cs[i:i + 250]:
+                uid = st.render_directive_case(pk, c, uid)
+            pk.finish()
+            packs.append((pk, mode == "structured"))
+    run_cases(binary, None, v, {"C14"}, "directives", packs=packs)
+    # the statement-level family with directives on statements that have targets and key-values
+    cases2 = [c for c in tlc_cases(v, "intended/StmtKv.cfg") if c["s"]["dir"] != "none"]
+    run_cases(binary, cases2, v, {"C14"}, "directives-kv")
+    v.cov["rule"] = ("every file of <= N lines over the 18-kind line alphabet of Directives.tla containing a statement, both modes, "
+                     "packed with code lines in between; plus directives on statements with targets and key-values")
+    v.cov["exhaustive"] = True
+    return v.finish()
+
+
+TABLE = {"C10": c10, "C11": c11, "C12": c12, "C13": c13, "C14": c14}
